@@ -30,6 +30,12 @@ Theorem C04_rw_local_name : forall fe fc fm r x e, fvb x e = false ->
   run_in (S (S fe)) fc fm r (ELocal [(x, e)] (EVar x)) = run_in fe fc fm r e.
 Proof. exact rw_local_name. Qed.
 
+(* the fuel offset is bookkeeping: both sides have the same proper results *)
+Theorem C04_rw_local_name_results : forall fc fm r x e res, fvb x e = false -> snd res <> OutOfFuel ->
+  ((exists fe, run_in fe fc fm r (ELocal [(x, e)] (EVar x)) = res) <->
+   (exists fe, run_in fe fc fm r e = res)).
+Proof. exact rw_local_name_results. Qed.
+
 (* (function(x) x)(e)  ==  e *)
 Theorem C04_rw_identity : forall fe fc fm r x e,
   run_in (S (S fe)) fc fm r (ECall (EFunc [(x, None)] (EVar x)) [e]) = run_in fe fc fm r e.
@@ -185,6 +191,7 @@ Proof. vm_compute. split; reflexivity. Qed.
 
 Print Assumptions C04_coincidence.
 Print Assumptions C04_rw_local_name.
+Print Assumptions C04_rw_local_name_results.
 Print Assumptions C04_rw_identity.
 Print Assumptions C04_rw_array_proj.
 Print Assumptions C04_rw_object_proj.
